@@ -185,9 +185,10 @@ class NsLoader(BaseLoader):
 
 class CachingNsLoader(CachingLoaderMixin, NsLoader):
     def __init__(self, store, ns_key, freshness="none", matter=False, *,
-                 auto_reload=True, namespace_key="", capacity=300) -> None:
+                 auto_reload=True, namespace_key="", capacity=300, thread_safe=False) -> None:
         super().__init__(
-            auto_reload=auto_reload, namespace_key=namespace_key, capacity=capacity
+            auto_reload=auto_reload, namespace_key=namespace_key, capacity=capacity,
+            thread_safe=thread_safe,
         )
         NsLoader.__init__(self, store, ns_key, freshness, matter)
 
@@ -361,6 +362,7 @@ class NsStoreWrap(Store):
         self.ns_key = ns_key
         self.freshness = freshness
         self.matter = matter
+        self.thread_safe = False
 
     def locs(self, name: str) -> list[str]:  # by namespace, resolved by caller
         raise NotImplementedError
@@ -390,6 +392,7 @@ class NsStoreWrap(Store):
 
     def clone(self) -> "NsStoreWrap":
         c = NsStoreWrap(self.ns_key, self.freshness, self.matter)
+        c.thread_safe = self.thread_safe
         c.store.data = dict(self.store.data)
         c.store.stamp = self.store.stamp
         c.rlog.unavailable = self.rlog.unavailable
@@ -397,5 +400,6 @@ class NsStoreWrap(Store):
 
     def make_loader(self, caching: bool, **kw):
         if caching:
-            return CachingNsLoader(self.store, self.ns_key, self.freshness, self.matter, **kw)
+            return CachingNsLoader(self.store, self.ns_key, self.freshness, self.matter,
+                                   thread_safe=self.thread_safe, **kw)
         return NsLoader(self.store, self.ns_key, self.freshness, self.matter)
